@@ -1211,6 +1211,10 @@ func main() {
 		fmt.Fprintln(os.Stderr, err)
 		os.Exit(1)
 	}
+	if err := os.WriteFile(filepath.Join(out, "Codec.lean"), []byte(codecSkeletons(repo)), 0o644); err != nil {
+		fmt.Fprintln(os.Stderr, err)
+		os.Exit(1)
+	}
 	consts := "/-! GENERATED by /verif/translator from /repo's working tree — do not edit. -/\nnamespace FV.Gen.Consts\n\n" + constants(repo) + "\n" + allocSites(repo) + "\nend FV.Gen.Consts\n"
 	if err := os.WriteFile(filepath.Join(out, "Consts.lean"), []byte(consts), 0o644); err != nil {
 		fmt.Fprintln(os.Stderr, err)
